@@ -12,6 +12,20 @@ NOT_APPLICABLE = {
 }
 
 PROPERTIES = {
+    "C16": {
+        "modules": ["harness.c16"],
+        "explanation": "",
+        "assumptions": COMMON_ASSUMPTIONS + [
+            "termination = step budget: at most 60 reads of `signed_by` per load / validation (a cycle-free graph of 3 elements needs < 20)",
+            "open and json inside admin.certificate_v1 are in-memory stubs (the document is the harness-built object); element signature "
+            "checks are replaced by one symbolic verdict (C06 / C07 decide the checks themselves)",
+            "any exception leaving from_jsonfile counts as 'reports an error'",
+            "documents with more than 3 elements (the statement mentions 12) are outside the bound; one focus group of fields is symbolic per partition",
+        ],
+        "level_text": "bounded symbolic verification of loading / validating / saving certificate documents of version 1 and 2: signer and name "
+                      "kinds per element, field kinds, top-level kinds are solver variables; non-termination is an assertion via a step budget",
+        "level_note": "trusted: CrossHair/z3, the in-memory file/json stubs",
+    },
     "C06": {
         "modules": ["harness.c06"],
         "explanation": "",
